@@ -158,7 +158,11 @@ def _sanitize_string(text: str) -> str:
     """
     # Encode with surrogateescape to handle surrogates, then decode back
     # This effectively replaces surrogates with a replacement representation
-    return text.encode("utf-8", errors="surrogateescape").decode("utf-8", errors="replace")
+    try:
+        return text.encode("utf-8", errors="surrogateescape").decode("utf-8", errors="replace")
+    except UnicodeEncodeError:
+        # A lone surrogate that does not stand for an undecodable byte (e.g. "\\ud83d" in a string literal)
+        return text.encode("utf-16", errors="surrogatepass").decode("utf-16", errors="replace")
 
 
 def format_violations(violations: list, output_format: str) -> None:
